@@ -1,6 +1,8 @@
 package main
 
 import (
+	"go/types"
+	"golang.org/x/tools/go/ssa"
 	"flag"
 	"fmt"
 	"os"
@@ -19,6 +21,45 @@ func main() {
 		cmdVerify(os.Args[2:])
 	case "check":
 		cmdCheck(os.Args[2:])
+	case "writers":
+		// govc writers <pkgs> <type substring>: which functions store to which fields (developer aid for frame scans)
+		eng := NewEngine("/repo")
+		if err := eng.Load(strings.Split(os.Args[2], ",")); err != nil {
+			fmt.Println(err)
+			os.Exit(2)
+		}
+		w := map[string]map[string]bool{}
+		for _, f := range eng.allRepoFuncs() {
+			for _, b := range f.Blocks {
+				for _, in := range b.Instrs {
+					st, ok := in.(*ssa.Store)
+					if !ok {
+						continue
+					}
+					fa, ok := st.Addr.(*ssa.FieldAddr)
+					if !ok {
+						continue
+					}
+					root := fa.X.Type().(*types.Pointer).Elem()
+					k := typeName(root) + "." + fieldNameAt(root, []int{fa.Field})
+					if len(os.Args) > 3 && !strings.Contains(k, os.Args[3]) {
+						continue
+					}
+					if w[k] == nil {
+						w[k] = map[string]bool{}
+					}
+					w[k][funcKey(f)] = true
+				}
+			}
+		}
+		var ks []string
+		for k := range w {
+			ks = append(ks, k)
+		}
+		sort.Strings(ks)
+		for _, k := range ks {
+			fmt.Println(k, setList(w[k]))
+		}
 	case "funcs":
 		eng := NewEngine("/repo")
 		if err := eng.Load(strings.Split(os.Args[2], ",")); err != nil {
